@@ -147,6 +147,31 @@ theorem C08_sqL2_diag_model (scale lam w ar ai yr yi vr vi : K) :
       = [(diagEntry ((1 + 1) * scale * lam) w ar 0 yr 0 vr 0).1] :=
   ⟨sqL2DiagProx_entry_cplx scale lam w ar ai yr yi vr vi, sqL2DiagProx_entry_real scale lam w ar yr vr⟩
 
+/-- whole arrays, real diagonal `A`: the array returned by the closed-form branch minimises the
+    documented objective `lam·scale·Σ w_i (y_i − a_i x_i)² + ½ Σ (x_i − v_i)²` (`diagObj`; its first
+    term is `lam` times what `SquaredL2Loss.__call__` returns, second conjunct) among all arrays of
+    the same length, for every length, weights `≥ 0` incl. zeros, `scale·lam ≥ 0` -/
+theorem C08_sqL2_diag_minimises {scale lam : K} (hc : 0 ≤ (1 + 1) * scale * lam) (w a y v x : List K)
+    (hw : ∀ wi ∈ w, 0 ≤ wi) (h1 : w.length = v.length) (h2 : a.length = v.length) (h3 : y.length = v.length)
+    (h4 : x.length = v.length) :
+    diagObj scale lam w a y v (sqL2DiagProx false scale lam (some w) a y v) ≤ diagObj scale lam w a y v x ∧
+    (∀ [HasSqrt K] (En : Env K), En.cplx = false →
+      eval En (.sqL2 (.arr y) (.diag a) (some w) scale) (.arr x)
+        = .ok (scale * (List.zipWith (· * ·) w (sqmags false (List.zipWith (· - ·) y (List.zipWith (· * ·) a x)))).sum)) :=
+  ⟨sqL2DiagProx_minimises_real hc w a y v x hw h1 h2 h3 h4,
+   fun En hE => eval_sqL2_diag_real En hE w a y x scale (h2.trans h4.symm) (h3.trans h4.symm)⟩
+
+/-- the system `SquaredL2Loss.prox` hands to `cg` — `lhs = Identity + lam * hessian`,
+    `hessian = 2·scale·AᴴWA`, `rhs = v + 2·lam·scale·AᴴW y` (model `sqL2Lhs`, `sqL2Rhs`) — is entry by
+    entry the system of `C08_sqL2_normal_eq`: `x + 2·scale·lam·(AᴴWA x)` and `v + 2·scale·lam·(AᴴW y)` -/
+theorem C08_sqL2_cg_system {F : Type} [Field F] (scale lam : F) (ahwa : List F → List F) (ahwy v x : List F) :
+    sqL2Lhs scale lam ahwa x = List.zipWith (fun xi ti => xi + 2 * scale * lam * ti) x (ahwa x) ∧
+    sqL2Rhs scale lam ahwy v = List.zipWith (fun vi ti => vi + 2 * scale * lam * ti) v ahwy :=
+  ⟨sqL2Lhs_eq scale lam ahwa x, sqL2Rhs_eq scale lam ahwy v⟩
+
+example : sqL2DiagProx false (1 / 2 : ℚ) 1 (some [2, 0]) [1, 3] [1, 5] [4, 7] = [2, 7] := by
+  norm_num [sqL2DiagProx, emul, econj, rmulL, edivR, sqmags]
+
 -- a = 1+i, w = 2, c = 1, y = 1, v = i over ℚ:  x = (conj(a)·2·1 + i)/(1 + 2·2) = (2 − i)/5
 example : diagEntry (1 : ℚ) 2 1 1 1 0 0 1 = (2 / 5, -1 / 5) := by norm_num [diagEntry]
 
@@ -254,8 +279,6 @@ def zEnv : Env ℝ where
 
 def zSem : LeafSem := ⟨fun _ _ => True, fun _ _ => 0⟩
 
-theorem zSound : LeafSound zEnv zSem := fun _ v lam _ _ => isProxA_zero lam v
-
 noncomputable def zTree : Fn ℝ := .scaled 2 (.scons (.loss (.arr [1, 2]) none (.leaf 0) 3) (.scons (.leaf 0) .snil))
 
 example : ∃ p, prox zEnv zTree (.blk [[5, 6], [7]]) 1 = .ok p ∧
@@ -267,6 +290,7 @@ example : ∃ p, prox zEnv zTree (.blk [[5, 6], [7]]) 1 = .ok p ∧
     ⟨_, _, rfl, ⟨by simp [Arg.shapeEq, Env.applyOpt], fun _ _ => trivial⟩, _, _, rfl, trivial, rfl⟩
   obtain ⟨p, hpr, _⟩ := prox_ok_of_hasProx zEnv ⟨fun _ v _ => Arg.shapeEq_refl v, fun _ _ _ _ v => Arg.shapeEq_refl v⟩
     zTree (.blk [[5, 6], [7]]) 1 hp hg hc
+  have zSound : LeafSound zEnv zSem := fun _ v lam _ _ => isProxA_zero lam v
   exact ⟨p, hpr, C08_tree_sound zEnv zSem zSound zTree _ p one_pos hp hg hls hpr⟩
 
 end nonvacuity_sound
